@@ -995,7 +995,7 @@ class Unit:
         body_text = src.text[body_lo:body_hi]
         for c in clauses:
             if c[0] in ('after', 'before'):
-                mm = re.match(r'`(.*?)`(?:#(\d+|\*))?\s*:\s*(.*)$', c[1], re.S)
+                mm = re.match(r'`(.*?)`(?:#(\d+|\*|\$))?\s*:\s*(.*)$', c[1], re.S)
                 if not mm:
                     raise GenError('%s:%d bad hint' % (tplpath, c[2]))
                 hits = list(flex_regex(mm.group(1)).finditer(body_text))
@@ -1008,6 +1008,9 @@ class Unit:
                             edits.append(Edit(off, off, (' ' + txt + ' ') if c[0] == 'after' else (txt + ' '), ('spec', tplpath, c[2], c[3]), prio=3))
                         rec.n_hints += 1
                         continue
+                elif mm.group(2) == '$':
+                    # `#$`: the LAST occurrence (an earlier occurrence may come and go with the code shape)
+                    hits = hits[-1:]
                 elif mm.group(2) is not None:
                     hits = hits[int(mm.group(2)):int(mm.group(2)) + 1]
                 if len(hits) != 1:
